@@ -63,6 +63,13 @@ TIE (measured every run, numbers in evidence/C16.json)
        expressions k*Symbol(name, <no / other assumptions>) + c mixed with text-built dimensions of the same names;
        the model evaluates by NAME (lookup), which is what evaluate() documents.
 
+  flat_string_items / flat_tree_cases (after seeded C16-r4m3: a "nesting" counter in _parse_primary that is never
+       decremented, so any text with >= 49 groups is rejected whatever its depth): products of sums, sums of quotients /
+       products of sums, sums of calls with 48-200 groups side by side, and single groups nested 10-80 deep, through
+       the parser tie, the string-evaluation tie and Python's-own-parser oracle; the same shapes built with the real
+       operators (SymPy's printed text -> SymbolicDim(text), serde, model parser).  C16_parser_structure_current
+       (ProofsStructure.v) pins classes / methods / assigned self.* / raise counts of the parser source, fail closed.
+
 READINGS
   * expressions whose exact value does not exist under the binding are outside the statement;
   * a non-integer exact value must come back as the dimension whose text is that rational ("7/2"), or as a
